@@ -138,7 +138,9 @@ def r1(ctx, F):
             # `heap.0.is_none()`: the None edge of a switch on the Option inside the FrozenHeapRef argument
             for b in f.terms:
                 info = switch_info(f, b)
-                if info and info["kind"] == "enum" and info["place"] and "{values::layout::heap::heap_type::FrozenHeapRef::0}" in info["place"]:
+                from kern import resolve_place
+                if info and info["kind"] == "enum" and info["place"] and "{values::layout::heap::heap_type::FrozenHeapRef::0}" in resolve_place(
+                        f, info["place"]):
                     names = enum_variant_names(F, info["ty"])
                     for v, t in info["targets"].items():
                         if names.get(v) == "None":
